@@ -122,6 +122,18 @@ def step(x, p):
     except Exception as e:
         raised = e
     if verdict == 'abstain':
+        k = R.number_before_concat(buf, n) if mode[0] == 'normal' else None
+        if k is not None and raised is None:
+            # the reference does not decide between "malformed number" and
+            # "numeral, then .."; either way no token ends between the dots
+            x.tag('numeral directly before ..')
+            x.out('i', i)
+            x.check('a numeral directly followed by .. is refused or ends '
+                    'before the two dots', Or(i == 0, And(
+                        i == k, len(lx._tokens) == 1)))
+            if i == k and len(lx._tokens) == 1:
+                x.check('numeral before .. is a number token',
+                        type(lx._tokens[0]) is lexer.TokNumber)
         return
     sig = known_sigs(buf, n) if mode[0] == 'normal' else {}
     if raised is not None:
